@@ -66,6 +66,7 @@ def check(repo, tier="quick"):
     res.rule("C24.b", "no ordered result is derived from the iteration order of a hash-ordered set (sets of ints/IntEnums excepted: their order is seed independent)")
     res.rule("C24.c", "no function on the closure keeps state between calls (a worker process starts fresh, the serial run does not)")
     res.rule("C24.d", "write-set discipline: every file or directory created by a unit of work is named from the unit's output directory and the test case's name (or a picture index under it); directories are created with exist_ok=True")
+    res.rule("C24.f", "no generator (or anything it calls) edits the codec features it is given: in a serial run all generators of a configuration share that one object, whereas every worker process unpickles its own copy")
     res.rule("C24.e", "units of work: one per registered generator function, names distinct per registry, every generator module star-imported by its package; what is pickled is a partial of module-level functions only")
 
     mods = closure_modules(repo)
@@ -75,6 +76,8 @@ def check(repo, tier="quick"):
     globals_state.rule(repo, res, "C24.c", [n.split("vc2_conformance.", 1)[-1] for n in mods if n != "vc2_conformance"], sanctioned={("pseudocode.metadata", "pseudocode_derived_functions"): "appended by the @ref_pseudocode decorator while modules are imported; same content in every process"}, what="the generated test cases")
     rule_d(repo, res)
     rule_e(repo, res)
+    rule_f(repo, res)
+    res.floor("C24.f", 20)
     res.floor("C24.a", 40)
     res.floor("C24.b", 40)
     res.floor("C24.c", 40)
@@ -414,3 +417,46 @@ def rule_e(repo, res):
     wmain = wm.funcs.get("main")
     ok = wmain is not None and any(isinstance(c, ast.Call) and dotted(c.func) == "decode" for c in ast.walk(wmain)) and any(isinstance(s, ast.Expr) and isinstance(s.value, ast.Call) and isinstance(s.value.func, ast.Name) and not s.value.args for s in wmain.body)
     res.check(ok, "C24.e", "worker:calls-decoded-unit", "%s:main" % wm.rel, "the worker must decode its argument and call it once with no arguments", by="fn = decode(code); fn()")
+
+
+def rule_f(repo, res):
+    pm = globals_state.ParamMutation(repo)
+    # positive fixture
+    src = "def helper(cf):\n    cf['x'] = 1\n\ndef gen(codec_features):\n    vp = codec_features['video_parameters']\n    vp['frame_width'] = 1\n    helper(codec_features)\n    codec_features.update(a=1)\n"
+
+    class M(object):
+        pass
+
+    fm = M()
+    fm.tree = ast.parse(src)
+    fm.name = "fixture"
+    fm.rel = "<fixture>"
+    fm.funcs = {f.name: f for f in fm.tree.body}
+
+    class R(object):
+        def resolve(self, modname, name):
+            class S(object):
+                pass
+
+            if name in fm.funcs:
+                s_ = S()
+                s_.kind, s_.mod, s_.name, s_.node = "func", "fixture", name, fm.funcs[name]
+                return s_
+            return None
+
+        def mod(self, name):
+            return fm
+
+    fx = globals_state.ParamMutation(R(), follow_prefixes=("fixture",)).mutations(fm, fm.funcs["gen"], 0)
+    if len(fx) < 3:
+        raise AnalysisError("parameter-mutation analysis no longer recognises its positive fixture (%d of 3)" % len(fx))
+    res.ok("C24.f", "param-mutation:fixture", "vcheck/globals_state.py", by="analysis finds the 3 mutations of its positive fixture")
+    for kind in ("decoder", "encoder"):
+        deco = "%s_test_case_generator" % kind
+        for name, m in sorted(repo.modules.items()):
+            if not name.startswith("vc2_conformance.test_cases.%s." % kind):
+                continue
+            for f in m.tree.body:
+                if isinstance(f, ast.FunctionDef) and any(dotted(d) == deco for d in f.decorator_list):
+                    muts = pm.mutations(m, f, 0)
+                    res.check(not muts, "C24.f", "%s:%s:input-not-mutated" % (kind, f.name), "%s:%s" % (m.rel, f.name), "generator %s edits the codec features object it was given -- %s -- so generators run after it in the same process see other features than a worker process does" % (f.name, "; ".join(sorted(set("%s in %s line %d" % (how, fn.name, n.lineno) for _, fn, n, how in muts))[:3])), by="codec_features is only read (through all callees)")
